@@ -287,6 +287,7 @@ struct PropC18
     if (kind == model::Reliability) {
       a = std::floor(r.unit() * 64) / 64; b = std::min(1.0, a + std::floor(r.unit() * 32) / 64);
       if (r.chance(0.1)) {b = a;}
+      if (r.chance(0.15)) {std::swap(a, b);}   // low above high: 'ERROR below the low threshold' still comes first
       return;
     }
     int e;
